@@ -1,31 +1,31 @@
-"""Per-property configuration for ./check (what to build, what is assumed). Keep in step with MANIFEST.json."""
+"""Per-property configuration for ./check and tools/mkmanifest.py.
 
-COMMON_ASSUME = [
-    "Go int/int64 arithmetic in translated functions is modelled on unbounded Int (no overflow) unless stated",
-    "the Go compiler/toolchain (go1.26.0 from the module cache) and runtime behave as specified",
-]
+Each claimed property has one file props.d/<Cxx>.json with keys:
+  technique, level_text, level_note          -> MANIFEST.json
+  trusted_base (list), assumptions (list)    -> evidence
+  harness (bool, default true), race (bool), extra_targets (list of lake targets),
+  timeout_quick / timeout_thorough (seconds), leanchecker (bool, default true)
+NOT_APPLICABLE holds the reason for every property that is not claimed.
+"""
+import glob
+import json
+import os
 
-PROPS = {
-    "C01": {
-        "technique": "Lean 4 theorem (mutual structural induction: decode∘encode round trip, length, minimal header) + go/ast-regenerated headerLen/constants + differential run of the real codec against the compiled model",
-        "level_text": "Kernel-checked theorems over every well-formed item tree (no bound on size, count or shape): decode(enc it ++ rest) returns it and consumes exactly |enc it|, |enc it| = EncodedLen, minimal length-byte count, big-endian payload, AppendTo prefix preservation, injectivity. `headerLen` and the format-code constants are regenerated from the Go source each run and proved equal to the E5 reference; the rest of the codec is tied by running the real constructors/ToBytes/Decode/Equal against the model on boundary-directed and random trees.",
-        "level_note": "Trusted: Lean kernel; the hand-written E5 reference encoder in Model/Secs2.lean; go2lean; the harness generators (model validated only on what they reach); float32/float64 conversion is exercised, not modelled.",
-        "trusted_base": [
-            "Model/Secs2.lean `enc` is taken as the SEMI E5 reference encoding (hand-written from the standard)",
-            "float payloads are bit patterns; float32<->float64 conversion is exercised by the harness, not modelled (DESIGN 4.3)",
-        ],
-        "assumptions": COMMON_ASSUME + [
-            "signalling F4 NaNs cannot be passed to constructors unchanged (Go conversions quiet them); NaN payload is not part of the logical value",
-        ],
-    },
-}
+_ROOT = os.path.dirname(os.path.abspath(__file__))
+PROPS = {}
+for _f in sorted(glob.glob(os.path.join(_ROOT, "props.d", "C*.json"))):
+    PROPS[os.path.basename(_f)[:-5]] = json.load(open(_f))
 
-# Properties not (yet) claimed, with the reason. Kept current as checks are built.
-NOT_APPLICABLE = {
-}
+NOT_APPLICABLE = {}
+_na = os.path.join(_ROOT, "props.d", "not_applicable.json")
+if os.path.exists(_na):
+    NOT_APPLICABLE = {k: v for k, v in json.load(open(_na)).items() if k not in PROPS}
 for _p in ["C%02d" % i for i in range(1, 21)]:
-    if _p not in PROPS:
-        NOT_APPLICABLE[_p] = "check not built yet in this round (model and theorems planned in DESIGN.md §5); nothing is claimed for it"
+    if _p not in PROPS and _p not in NOT_APPLICABLE:
+        NOT_APPLICABLE[_p] = "check not built yet in this round (model and theorems planned in DESIGN.md section 5); nothing is claimed for it"
 
 # commits in /repo that add verif-tagged hooks
 HOOK_COMMITS = []
+_hc = os.path.join(_ROOT, "props.d", "hook_commits.json")
+if os.path.exists(_hc):
+    HOOK_COMMITS = json.load(open(_hc))
